@@ -74,6 +74,19 @@ for tol in (1e-3, 1e-6, 1e-10):
         arr = np.array(combo + (combo[0] * 3,), dtype=np.float64)
         R.check("compress() round trip within tolerance; non-finite kept or rejected", f"compress float64 tol={tol}",
                 {"dtype": "float64", "array": [repr(x) for x in arr.tolist()], "tolerance": tol}, lambda arr=arr, tol=tol: check(arr, tol))
+# tiny magnitudes: the number of decimal places needed exceeds the precision of a double
+TINY = [1.5e-12, 2.25e-16, 1.0e-20, 3.0e-30, 1.2345678e-33, 1.0e-39, 1.0e-300, 1.23456789e-305, 5e-324]
+for dt in (np.float32, np.float64):
+    for tiny in TINY:
+        for other in (None, 0.0, 1.0, 1e-3):
+            for n in (1, 40):
+                vals = ([tiny] if other is None else [tiny, other]) * n
+                arr = np.array(vals, dtype=dt)
+                if not np.all(np.isfinite(arr)) or arr[0] == 0:
+                    continue
+                for tol in (1e-2, 1e-6):
+                    R.check("compress() round trip within tolerance; non-finite kept or rejected", f"compress {dt.__name__} tiny magnitudes",
+                            {"dtype": dt.__name__, "array": f"{[repr(v) for v in vals[:2]]} * {n}", "tolerance": tol}, lambda arr=arr, tol=tol: check(arr, tol))
 # long arrays (so that the fixed-point chain wins on size) with one value at the edge of the 32-bit fixed-point range
 for dt in (np.float32, np.float64):
     for edge in (21474836.0, -21474836.0, 2147483.6, 214748.36, 2147483647.0, 2.1474836e9, 16777217.0, 1e15):
@@ -136,6 +149,46 @@ for level in ("data", "column", "category", "block", "file"):
     for tol in (1e-3, 1e-6, 1e-9, 1e-12):
         R.check("compress() round trip within tolerance; non-finite kept or rejected", f"compress {level} tol={tol}",
                 {"level": level, "tolerance": tol}, lambda level=level, tol=tol: container_case(level, tol))
+
+
+def empty_case(dt, level):
+    """an empty column is something every representation can hold: compress() must keep it, at every level"""
+    arr = np.array([], dtype=dt)
+    if level == "data":
+        back = BinaryCIFData.deserialize(compress(BinaryCIFData(arr)).serialize()).array
+    else:
+        fil = BinaryCIFFile({"blk": BinaryCIFBlock({"cat": BinaryCIFCategory({"x": BinaryCIFColumn(BinaryCIFData(arr))})})})
+        import io as _io
+        st = _io.BytesIO()
+        compress(fil).write(st)
+        st.seek(0)
+        back = BinaryCIFFile.read(st)["blk"]["cat"]["x"].as_array()
+    back = np.asarray(back)
+    if back.shape != (0,):
+        return f"empty {np.dtype(dt)} array read back with shape {back.shape}"
+    if np.dtype(dt).kind != back.dtype.kind and not (np.dtype(dt).kind in "iu" and back.dtype.kind in "iu"):
+        return f"empty {np.dtype(dt)} array read back as {back.dtype}"
+    return None
+
+
+def string_case(vals):
+    arr = np.array(vals, dtype=str)
+    back = np.asarray(BinaryCIFData.deserialize(compress(BinaryCIFData(arr)).serialize()).array)
+    if back.tolist() != list(vals):
+        return f"decoded {back.tolist()}"
+    return None
+
+
+for dt in (np.int8, np.uint8, np.int16, np.uint16, np.int32, np.uint32, np.int64, np.float32, np.float64, "U4"):
+    for level in ("data", "file"):
+        R.check("compress() keeps an empty column", f"compress empty {np.dtype(dt).kind}", {"dtype": str(np.dtype(dt)), "level": level},
+                lambda dt=dt, level=level: empty_case(dt, level))
+STRS = ["", "A", "A", "abc", "\u00e9\u00df", "'", " x"]
+for n in (1, 2, 3, 4):
+    for combo in itertools.product(STRS, repeat=n):
+        if n == 4 and not R.thorough and hash(combo) % 7:
+            continue
+        R.check("compress() round trip exact for strings", "compress strings", {"array": list(combo)}, lambda combo=combo: string_case(combo))
 
 
 # ---- (b) the encodings applied directly -----------------------------------------------------
